@@ -281,7 +281,7 @@ pub fn run(ctx: &Ctx) -> (Report, String) {
     if ctx.is_main() {
         let m = ctx.scale_pct;
         rep.require("headers_matched", if thorough { 40_000_000 } else { 3_000_000 } * m / 100);
-        for k in ["sweep:sor-custom8", "sweep:ptype-lowbits", "sweep:opptype-bits", "sweep:cpfmt", "sweep:par", "sweep:cpcfc-etr", "sweep:uui-sss", "sweep:layers", "sweep:rps", "sweep:pb", "inheritance_pairs", "marker_flips_rejected", "decoded_picture_header_checked", "decoded_picture_header_checked_in_history", "sweep:pei-ladder", "gob_probes_ok", "late_delivery_headers_matched", "header_chains_completed", "chain:ufep0-after-baseline-with-modes", "chain:ufep0-after-ufep0-with-modes", "chain:ufep0-at-depth-3", "decoded_without_restated_format", "decoded_without_restated_format_twice_in_a_row", "decoded_intra_only_predicted_picture_of_new_size", "headers_followed_by_stuffing_matched"] {
+        for k in ["sweep:sor-custom8", "sweep:ptype-lowbits", "sweep:opptype-bits", "sweep:cpfmt", "sweep:par", "sweep:cpcfc-etr", "sweep:uui-sss", "sweep:layers", "sweep:rps", "sweep:pb", "inheritance_pairs", "marker_flips_rejected", "decoded_picture_header_checked", "decoded_picture_header_checked_in_history", "sweep:pei-ladder", "gob_probes_ok", "late_delivery_headers_matched", "header_chains_completed", "chain:ufep0-after-baseline-with-modes", "chain:ufep0-after-ufep0-with-modes", "chain:ufep0-at-depth-3", "decoded_without_restated_format", "decoded_without_restated_format_twice_in_a_row", "decoded_intra_only_predicted_picture_of_new_size", "headers_followed_by_stuffing_matched", "headers_parsed_on_a_used_decoder", "used_decoder_last_header_has_a_mode_on"] {
             rep.require(k, if k == "sweep:pei-ladder" { 20 } else { 40 });
         }
         {
@@ -1097,6 +1097,51 @@ fn shard(ctx: &Ctx, s: usize, n_random: u64, thorough: bool, rep: &mut Report) {
                     (w, h) = size_before;
                     cfg.w = w;
                     cfg.h = h;
+                }
+            }
+            // the state's own header parser, called with no previous header on a decoder that has decoded pictures:
+            // nothing of that history may leak into what it reports (a UFEP = 000 header then inherits nothing)
+            if !flavour.sorenson() {
+                // one more intra picture first, whose PLUSPTYPE header has a mode switched on (so that there is something to leak)
+                if flavour == Flavour::StdPlus {
+                    let mut last = gen_intra(&mut rng, &cfg);
+                    if let Hdr::Std(hd) = &mut last.hdr {
+                        if let Some(pl) = hd.plus.as_mut() {
+                            pl.umv = true;
+                            pl.uui_unlimited = rng.chance(1, 2);
+                        }
+                    }
+                    if dec.decode(&last.encode()) == Outcome::Ok {
+                        rep.count("used_decoder_last_header_has_a_mode_on");
+                    }
+                }
+                let mut hh = random_std(&mut rng, false);
+                let mut pl = base_plus(&mut rng);
+                pl.ufep = 0;
+                pl.ptype = rng.below(6) as u8;
+                hh.plus = Some(pl);
+                let mut wtr = BitWriter::new();
+                hh.encode(&mut wtr, false, &Inherited::default());
+                let (hb, nb) = finish(wtr);
+                let exp = hh.view(false, &Inherited::default());
+                rep.evaluations += 1;
+                let r = catch(|| {
+                    let mut rd = H263Reader::from_source(&hb[..]);
+                    let p = dec.st.parse_picture(&mut rd, None);
+                    (p.map(|o| o.map(|p| view_of(&p))).map_err(|e| sut::err_kind(&e)), rd.verif_position().0)
+                });
+                match r {
+                    Err(p) => rep.violation(format!("panic@{}", p.loc), format!("parse_picture on a used decoder panicked: {}", p.msg), coords()),
+                    Ok((Ok(Some(v)), bits)) => {
+                        if let Some(f) = exp.diff(&v).first() {
+                            rep.violation(format!("hdr/used-decoder/{}", f.split(':').next().unwrap_or("?")), format!("parse_picture(.., None) on a decoder that has decoded pictures reports {} for a UFEP=000 header {}", f, hex(&hb[..(nb + 7) / 8])), coords());
+                        } else if bits != nb {
+                            rep.violation("hdr/used-decoder/consumed-bits", format!("parse_picture(.., None) on a used decoder consumed {} bits of a {}-bit header", bits, nb), coords());
+                        } else {
+                            rep.count("headers_parsed_on_a_used_decoder");
+                        }
+                    }
+                    Ok((other, _)) => rep.violation("hdr/used-decoder/rejected", format!("parse_picture(.., None) on a used decoder: {:?}", other.map(|_| "none")), coords()),
                 }
             }
         }
